@@ -197,7 +197,7 @@ def run_check(prop, tier, seed, shards=None, replay=None):
     ev = {"property_id": prop, "tier": tier, "seed": int(seed), "level": "exploration",
           "coverage": cov, "assumptions": list(getattr(mod, "ASSUMPTIONS", [])),
           "wall_s": round(wall, 2), "violations": int(nviol)}
-    if replay is None:
+    if replay is None and not os.environ.get("VERIF_NO_EVIDENCE"):
         write_evidence(prop, ev)
     for ln in lines:
         print(ln)
